@@ -75,6 +75,33 @@ def generic_tasks(docs_by_universe, limit_atoms, r, maxtriples):
     return tasks
 
 
+GENERIC_STRATS = ("use-base", "use-local", "use-remote", "union", "clear", "clear-all", "remove", "mergetool",
+                  "inline-source", "fail", "take-max")
+
+
+def generic_strategy_law_tasks(docs_by_universe, r, maxpairs):
+    """'under any strategy' for the generic merger: documents {"v": doc} with every generic strategy name configured
+    on /v (and on its items), for the four law shapes of every pair (b, X)."""
+    tasks = []
+    for u, docs in docs_by_universe.items():
+        pairs = [(b, x) for b in docs for x in docs if b != x or type(b) is not type(x)]
+        if len(pairs) > maxpairs:
+            r.shuffle(pairs)
+            pairs = pairs[:maxpairs]
+        for k, (b, x) in enumerate(pairs):
+            B, X = {"v": b, "k": 1}, {"v": x, "k": 1}
+            for law, (l, rr), exp in (("identity", (B, B), B), ("onesided", (X, B), X), ("onesided", (B, X), X),
+                                      ("agreement", (X, X), X)):
+                plan = []
+                for st in GENERIC_STRATS:
+                    it = plan_item("json")
+                    it["gstrat"] = {"/v": st, "/v/*": st}
+                    plan.append(it)
+                tasks.append(("gs-%s-%d-%s%d" % (u, k, law, len(tasks)), B, l, rr, plan,
+                              {"generic": True, "law": law, "expected": enc(exp)}))
+    return tasks
+
+
 def small_doc(d):
     ok = (1, 2, "x")
     if isinstance(d, list):
@@ -157,12 +184,14 @@ def run():
         triples = corp.triples(n_enum=360, n_random=100, salt="c05s")
         models = run_models("quick", chk, universes=[("lists", 2), ("objects", 2), ("strings", 1)])
         gtasks = generic_tasks({u: m[0] for u, m in models.items()}, True, r, 2500)
+        gtasks += generic_strategy_law_tasks({u: m[0] for u, m in models.items()}, r, 60)
         ntasks = law_tasks(pairs, r, 2) + sym_tasks(triples)
     else:
         pairs = corp.pairs(n_enum=2500, n_random=1500, salt="c05")
         triples = corp.triples(n_enum=6000, n_random=3000, salt="c05s")
         models = run_models("thorough", chk, universes=[("lists", 2), ("objects", 2), ("strings", 2), ("nested", 1)])
         gtasks = generic_tasks({u: m[0] for u, m in models.items()}, False, r, 70000)
+        gtasks += generic_strategy_law_tasks({u: m[0] for u, m in models.items()}, r, 1500)
         ntasks = law_tasks(pairs, r, 4) + sym_tasks(triples)
     events = mergefam.generate(ntasks + gtasks)
     for tid, names in events.meta:
